@@ -887,6 +887,21 @@ def main(out_path):
         w('Definition src_outbuf_colors : list (string * Z) := ' + clist(lit(cols[0].value).items(), lambda kv: cpair(cstr(kv[0]), cz(kv[1]))) + '.')
     soft('level filter and colouring (OutputBuffer)', ['C15'], ex_outbuf)
 
+    def ex_policy_exit():
+        # audit(): `program_retval = exitcodes.GOOD if evaluate_policy(...) else exitcodes.FAILURE`; evaluate_policy() returns the verdict of Policy.evaluate on every path
+        au = func_node(t_main, 'audit')
+        sites = [n for n in ast.walk(au) if isinstance(n, ast.Assign) and isinstance(n.value, ast.IfExp) and isinstance(n.value.test, ast.Call) and getattr(n.value.test.func, 'id', None) == 'evaluate_policy']
+        need(len(sites) == 1 and ast.unparse(sites[0].targets[0]) == 'program_retval', 'audit(): one status assignment from evaluate_policy()')
+        inputs = {'exitcodes.' + k: ('exit_' + k, 'Z') for k in ('FAILURE', 'WARNING', 'GOOD', 'CONNECTION_ERROR', 'UNKNOWN_ERROR')}
+        inputs[ast.unparse(sites[0].value.test)] = ('passed', 'bool')
+        w(kernel('src_policy_exit', [('passed', 'bool')], [ast.Return(value=sites[0].value)], inputs=inputs))
+        ep = func_node(t_main, 'evaluate_policy')
+        rets = [n for n in ast.walk(ep) if isinstance(n, ast.Return)]
+        need(len(rets) == 1 and ep.body[-1] is rets[0] and ast.unparse(rets[0]) == 'return passed', 'evaluate_policy(): a single `return passed`, as the last statement of the function body')
+        asg = [n for n in ast.walk(ep) if isinstance(n, (ast.Assign, ast.AugAssign, ast.AnnAssign)) and any(isinstance(x, ast.Name) and x.id == 'passed' and isinstance(x.ctx, ast.Store) for x in ast.walk(n))]
+        need(len(asg) == 1 and ast.unparse(asg[0]) == 'passed, error_struct, error_str = aconf.policy.evaluate(banner, kex)', 'evaluate_policy(): `passed` comes from Policy.evaluate and is not reassigned')
+    soft('policy verdict to exit status (audit / evaluate_policy)', ['C02'], ex_policy_exit)
+
     globals()['LAST_SOFT_FAILURES'] = soft_failures
 
     text = '\n'.join(o) + '\n'
